@@ -239,7 +239,7 @@ def pe_spec(p, st):
         acc = acc + full[k] * th[k]; cum.append(acc)
     tot = cum[-1]
     sdot = [tot * float(p['b'][r + 1]) - cum[r] for r in range(K - 1)]     # sigma_dot at the internal boundaries
-    upwind = p.get('vadv', 'centered') == 'upwind'
+    upwind = p.get('vadv', 'centered') in ('upwind', 'none')     # vertical advection terms supplied at the nodes by the caller
     # the two halves of sigma_dot (semi-implicit split): from u.grad(lnps) and from the divergence
     cumG = []; acc = Fn.const(0.0)
     for k in range(K):
@@ -333,7 +333,13 @@ def sw_spec(p, st):
 # implementation side helpers
 # ---------------------------------------------------------------------------
 GRIDS = {'g9': dict(M=8, L=9, I=25, J=13), 'g7': dict(M=6, L=7, I=19, J=10), 'g12': dict(M=11, L=12, I=34, J=17),
-         'g9f': dict(M=8, L=9, I=25, J=13, impl='fast')}
+         'g9f': dict(M=8, L=9, I=25, J=13, impl='fast'),
+         'g9p': dict(M=8, L=9, I=25, J=13, impl='fast', base_shape_multiple=4),      # padded layouts (modal 9 -> 12, nodal 25x13 -> 28x16)
+         'g9o': dict(M=8, L=9, I=25, J=13, offset=0.3),                             # longitude offset
+         'gm6': dict(M=6, L=9, I=25, J=13),                                         # total_wavenumbers > longitude_wavenumbers + 1
+         'gw': dict(M=8, L=9, I=96, J=13),                                          # wide
+         'gt': dict(M=3, L=9, I=4, J=40)}                                           # tall, longitude_nodes = 2 (M - 1): zonal states only
+_nodes_ok = {}
 _cache = {}
 
 
@@ -345,7 +351,18 @@ def grid_of(name, radius=None):
         lon = np.asarray(lon, dtype=np.float64); sl = np.asarray(sl, dtype=np.float64)
         cl = np.sqrt(1 - sl * sl)
         _cache[key] = (g, cl * np.cos(lon), cl * np.sin(lon), sl)
+        # the node coordinates recomputed from the grid DEFINITION (equispaced longitudes from the offset, Gauss-Legendre
+        # latitudes from numpy), compared on the unpadded part: the oracle's evaluation points do not rest on the grid's tables
+        I, J = g.longitude_nodes, g.latitude_nodes
+        lon_def = g.longitude_offset + 2 * np.pi * np.arange(I) / I; mu_def = np.polynomial.legendre.leggauss(J)[0]
+        _nodes_ok[key] = (float(np.max(np.abs(lon[:I, :J] - lon_def[:, None]))), float(np.max(np.abs(sl[:I, :J] - mu_def[None, :]))))
     return _cache[key]
+
+
+def nodes_obligation(ctx, name, radius=None):
+    e = _nodes_ok.get((name, radius), (0.0, 0.0))
+    ctx.table_obligation('grid nodes = equispaced longitudes (with offset) x Gauss-Legendre latitudes (numpy.leggauss)',
+                         e[0] <= 1e-14 and e[1] <= 1e-14, {'lon err': e[0], 'sin(lat) err': e[1], 'grid': name})
 
 
 def specs_of(consts):
@@ -379,7 +396,8 @@ def resolved(ctx, g, name, nodal, tol=1e-11, lmax=None):
     total wavenumber lmax); returns the exactly band-limited modal coefficients"""
     mod = to_modal(g, nodal); back = to_nodal(g, mod)
     sc = max(float(np.max(np.abs(nodal))), 1e-300)
-    err = float(np.max(np.abs(back - nodal)))
+    I_, J_ = g.longitude_nodes, g.latitude_nodes            # padded layouts: only the real nodes carry data
+    err = float(np.max(np.abs((back - nodal)[..., :I_, :J_])))
     lmax = g.total_wavenumbers - 2 if lmax is None else min(int(lmax), g.total_wavenumbers - 2)
     top = float(np.max(np.abs(mod[..., lmax + 1:]))) if mod.size else 0.0
     ctx.table_obligation('H_resolved: ' + name, err <= tol * sc and top <= tol * sc, {'err': err, 'top': top, 'scale': sc, 'lmax': lmax})
@@ -425,8 +443,11 @@ def compare_modal(ctx, clause, g, impl, spec_nodal, scale, tol=1e-10, extra_moda
     obtained by the linear spectral operators from independently evaluated nodal terms); all coefficients below the top wavenumber"""
     spec = to_modal(g, spec_nodal)
     if extra_modal is not None: spec = spec + np.asarray(extra_modal, dtype=np.float64)
-    a = np.asarray(impl, dtype=np.float64)[..., :-1]; b = spec[..., :-1]
+    top = g.total_wavenumbers - 1                     # index of the clipped top total wavenumber (padded layouts are longer)
+    a = np.asarray(impl, dtype=np.float64)[..., :top]; b = spec[..., :top]
     ctx.oracle_close(clause, a, b, scale=scale, tol_rel=tol)
+    pad = np.asarray(impl, dtype=np.float64)[..., g.total_wavenumbers:]
+    if pad.size: ctx.exact('padding of the modal layout stays zero: ' + clause[:40], float(np.max(np.abs(pad))), 0.0)
     # the top total wavenumber of the explicit part is clipped, of the implicit part empty for resolved states
     return spec
 
@@ -439,6 +460,7 @@ def _pe_polys(rng, K, kind, degree, amp):
               chi=[rand_poly(rng, degree, amp=amp['chi']) for _ in range(K)],
               Tp=[rand_poly(rng, degree, amp=amp['T']) for _ in range(K)],
               lnps=rand_poly(rng, degree, amp=amp['lnps']), oro=rand_poly(rng, degree, amp=amp['oro']))
+    st['tr'] = [rand_poly(rng, degree, amp=0.5) for _ in range(K)]          # a generic advected tracer, every class
     if kind in ('moist', 'cloud'):
         st['q'] = [[[0, 0, 0, 0.01]] + rand_poly(rng, degree, amp=0.004) for _ in range(K)]
     if kind == 'cloud':
@@ -458,10 +480,12 @@ def r_pe_pointwise(ctx, a):
     T = [fn['Tp'][k] + float(tref[k]) for k in range(K)]
     p = dict(a=float(g.radius), Omega=specs.angular_velocity, R=specs.R, kappa=specs.kappa, g=specs.g, b=b, Rv=specs.R_vapor,
              Cpv=specs.Cp_vapor, Cp=specs.Cp, kind=kind, Tref=tref, vadv=a.get('vadv', 'centered'))
-    upwind = a.get('vadv', 'centered') == 'upwind'
+    vmode = a.get('vadv', 'centered'); upwind = vmode in ('upwind', 'none')
     st = dict(psi=fn['psi'], chi=fn['chi'], T=T, lnps=fn['lnps'], oro=fn['oro'])
     tracers = {}
+    if a.get('q_zero') and 'q' in fn: fn['q'] = [Fn.const(0.0)] * K         # identically zero humidity in a moist class
     if 'q' in fn: st['q'] = fn['q']; tracers[QN] = fn['q']
+    if 'tr' in fn: tracers['tracer_0'] = fn['tr']
     if 'qc' in fn: st['qc'] = fn['qc']; st['qi'] = fn['qi']; tracers[QC] = fn['qc']; tracers[QI] = fn['qi']
     st['tracers'] = tracers
     sp = pe_spec(p, st)
@@ -475,9 +499,14 @@ def r_pe_pointwise(ctx, a):
     vort[..., 0, 0] = 0.0; div[..., 0, 0] = 0.0     # exact zero mean (the analysis leaves rounding noise)
     # configuration options of the equation classes: vertical scheme and dense / matrix-free vertical products
     opts = {}
-    if upwind: opts['vertical_advection'] = m['sc'].upwind_vertical_advection
+    if vmode == 'upwind': opts['vertical_advection'] = m['sc'].upwind_vertical_advection
+    if vmode == 'none': opts['include_vertical_advection'] = False
     if a.get('matmul') is not None: opts['vertical_matmul_method'] = a['matmul']
-    eq = dyn.pe_equation(kind, c, specs, tref, oro, **opts)
+    if a.get('tref_int'):      # integer-typed reference temperature array handed to the class as is
+        eq = getattr(pe, dyn.PE_CLASSES[kind])(np.asarray(tref).astype(np.int64), jnp.asarray(oro), c, specs, **opts)
+    else:
+        eq = dyn.pe_equation(kind, c, specs, tref, oro, **opts)
+    nodes_obligation(ctx, a['grid'], a.get('radius'))
     kw = dict(vorticity=jnp.asarray(vort), divergence=jnp.asarray(div), temperature_variation=jnp.asarray(Tp),
               log_surface_pressure=jnp.asarray(lnps), tracers={n: jnp.asarray(v) for n, v in trm.items()})
     state = pe.State(**kw) if kind == 'dry' else pe.StateWithTime(sim_time=0.0, **kw)
@@ -491,20 +520,26 @@ def r_pe_pointwise(ctx, a):
         # documented upwind differences, evaluated at the nodes from the exact nodal sigma_dot (polynomial ring) and fields
         sd = nodal_of(F['sdot'], xyz) if K > 1 else np.zeros((0,) + x.shape)
         sdG = nodal_of(F['sdotG'], xyz) if K > 1 else sd; sdD = nodal_of(F['sdotD'], xyz) if K > 1 else sd
-        if K > 1:
+        if K > 1 and vmode == 'upwind':
             ctx.oracle('upwind cases: sigma_dot takes both signs (upward and downward motion)',
                        float(sd.min()) < 0 < float(sd.max()), {'min': float(sd.min()), 'max': float(sd.max())})
         Un = nodal_of(F['U'], xyz); Vn = nodal_of(F['V'], xyz); s2n = 1.0 / (1.0 - z * z)
-        Pu = -upwind_np(sd, Un, cen); Qu = -upwind_np(sd, Vn, cen)                 # + sigma_dot dU/dsigma in the momentum vector
-        A = jnp.asarray(to_modal(g, Pu * s2n)); B = jnp.asarray(to_modal(g, Qu * s2n))
-        xv = -np.asarray(g.clip_wavenumbers(g.curl_cos_lat((A, B), clip=False)), dtype=np.float64)
-        xd = -np.asarray(g.clip_wavenumbers(g.div_cos_lat((A, B), clip=False)), dtype=np.float64)
-        upsc = float(np.max(np.abs(xv))) + float(np.max(np.abs(xd)))
-        # temperature: T' and (explicitly) T_ref by upwind differences; the divergence part of sigma_dot acting on T_ref is
-        # inside the implicit operator H, which is built from centred differences (semi-implicit split)
         trefb = tref.reshape((K,) + (1,) * x.ndim)
-        upT = upwind_np(sd, nodal_of(fn['Tp'], xyz), cen) + upwind_np(sdG, trefb, cen) + centered_np(sdD, trefb, cen)
-        upX = {n: upwind_np(sd, nodal_of(v, xyz), cen) for n, v in tracers.items()}
+        if vmode == 'upwind':
+            Pu = -upwind_np(sd, Un, cen); Qu = -upwind_np(sd, Vn, cen)             # + sigma_dot dU/dsigma in the momentum vector
+            A = jnp.asarray(to_modal(g, Pu * s2n)); B = jnp.asarray(to_modal(g, Qu * s2n))
+            xv = -np.asarray(g.clip_wavenumbers(g.curl_cos_lat((A, B), clip=False)), dtype=np.float64)
+            xd = -np.asarray(g.clip_wavenumbers(g.div_cos_lat((A, B), clip=False)), dtype=np.float64)
+            upsc = float(np.max(np.abs(xv))) + float(np.max(np.abs(xd)))
+            # temperature: T' and (explicitly) T_ref by upwind differences; the divergence part of sigma_dot acting on T_ref is
+            # inside the implicit operator H, which is built from centred differences (semi-implicit split)
+            upT = upwind_np(sd, nodal_of(fn['Tp'], xyz), cen) + upwind_np(sdG, trefb, cen) + centered_np(sdD, trefb, cen)
+            upX = {n: upwind_np(sd, nodal_of(v, xyz), cen) for n, v in tracers.items()}
+        else:
+            # include_vertical_advection=False: no vertical advection of momentum, T' and tracers; the reference profile is still
+            # advected (explicitly by the u.grad(lnps) part of sigma_dot, implicitly inside H), centred differences
+            upT = centered_np(sdG, trefb, cen) + centered_np(sdD, trefb, cen) + 0 * x
+            upX = {}
     compare_modal(ctx, f'{kind}: vorticity tendency = analysis of -k.curl((zeta+f) k x v + sigma_dot dv/dsigma + R Tv grad lnps)',
                   g, tot('vorticity'), nodal_of(sp['vorticity'], xyz), maxabs(M['vorticity'], xyz) + upsc + 1e-300, extra_modal=xv)
     compare_modal(ctx, f'{kind}: divergence tendency = analysis of -div(...) - lap(KE + Phi)',
@@ -633,7 +668,7 @@ def r_pe_rest_states(ctx, a):
     h = None
     if a['height_m'] > 0:
         h = a['height_m'] * (0.5 + 0.5 * poly_fn(a['shape']).at(x, y, z) / max(1e-9, np.max(np.abs(poly_fn(a['shape']).at(x, y, z))))) * units.meter
-    fn, aux = pes.isothermal_rest_atmosphere(c, specs, tref=a['T0'] * units.degK, p0=1e5 * units.pascal, p1=0. * units.pascal, surface_height=h)
+    fn, aux = pes.isothermal_rest_atmosphere(c, specs, tref=a['T0'] * units.degK, p0=a.get('p0', 1e5) * units.pascal, p1=0. * units.pascal, surface_height=h)
     st = fn(jax.random.PRNGKey(a['seed']))
     oro_nodal = np.asarray(aux[xarray_utils.OROGRAPHY]); tref = np.asarray(aux[xarray_utils.REF_TEMP_KEY])
     oro = to_modal(g, oro_nodal)
@@ -927,12 +962,156 @@ def r_geopotential(ctx, a):
         arrs = [ls, b, [Fraction(float(t)) for t in tref], [R, 0, 0, 0], [0] * K, [0] * K, [0] * K, [0] * K, Tcol,
                 [0, 0, 0, 0, Fraction(grav) * Fraction(float(oro[mi, li])), cst], [0] * K]
         ctx.corr('get_geopotential', out[:, mi, li], ctx.model.call(2, [K], arrs), scale=sc)
+    # get_geopotential_with_moisture (nodal): phis + G . (T (1 + (Rv/R - 1) q)), a few node columns against the extracted spec
+    Rv = 1.6 * R
+    Tn_ = 250.0 + rng.integers(-80, 81, size=(K,) + tuple(g.nodal_shape)) / 4.0
+    qn_ = rng.integers(0, 33, size=(K,) + tuple(g.nodal_shape)) / 2048.0
+    on_ = rng.integers(-16, 17, size=tuple(g.nodal_shape)) / 64.0
+    outm = np.asarray(pe.get_geopotential_with_moisture(jnp.asarray(Tn_), jnp.asarray(qn_), jnp.asarray(on_), c.vertical, grav, R, Rv), dtype=np.float64)
+    scm = float(abs(grav) * np.max(np.abs(on_)) + abs(R) * np.max(np.abs(ls)) * 2 * np.sum(np.abs(Tn_), axis=0).max()) + 1e-300
+    for (i_, j_) in [(0, 0), (3, 2), (int(g.nodal_shape[0]) - 1, int(g.nodal_shape[1]) - 1)]:
+        Tcol = [Fraction(float(Tn_[k, i_, j_])) * (1 + (Fraction(Rv) / Fraction(R) - 1) * Fraction(float(qn_[k, i_, j_]))) for k in range(K)]
+        arrs = [ls, b, [0] * K, [R, 0, 0, 0], [0] * K, [0] * K, [0] * K, [0] * K, Tcol,
+                [0, 0, 0, 0, Fraction(grav) * Fraction(float(on_[i_, j_])), 0], [0] * K]
+        ctx.corr('get_geopotential_with_moisture', outm[:, i_, j_], ctx.model.call(2, [K], arrs), scale=scm)
     # hydrostatic balance of the implementation's own geopotential: Phi_k - Phi_{k+1} = R (alpha-weights) (trapezoid in ln sigma)
     Tn = Tp.copy(); Tn[:, 0, 0] += 3.5449077 * tref
     d = out[:-1] - out[1:]
     if K > 1:
         want = R * 0.5 * (ls[1:] - ls[:-1])[:, None, None] * (Tn[:-1] + Tn[1:])
         ctx.oracle_close('geopotential thickness between layers = R * mean(T) * d ln(sigma)', d, want, scale=sc, tol_rel=1e-10)
+
+
+# ---------------------------------------------------------------------------
+# Forms of the input and state across calls (purity, batching, dtypes)
+# ---------------------------------------------------------------------------
+def _leaves_equal(ctx, what, t1, t2):
+    l1 = dyn.tree_leaves(t1); l2 = dyn.tree_leaves(t2)
+    ok = len(l1) == len(l2) and all(np.array_equal(np.asarray(u), np.asarray(v)) for u, v in zip(l1, l2))
+    ctx.oracle(what, ok, None if ok else {'max diff': max([float(np.max(np.abs(np.asarray(u, dtype=np.float64) - np.asarray(v, dtype=np.float64)))) for u, v in zip(l1, l2)] + [0.0])})
+
+
+def r_pe_forms(ctx, a):
+    """the same equation object evaluated repeatedly / interleaved with other inputs and other configurations is bit-identical;
+    jax.vmap over a batch of different states = per-state evaluation; integer-typed T_ref, read-only numpy inputs and
+    (exactly representable) float32 inputs give the float64 result"""
+    m = dyn.mods(); jax = m['jax']; jnp = m['jnp']; pe = m['pe']
+    kind = a['kind']; K = len(a['b']) - 1; rng = np.random.default_rng([a['seed'], 11])
+    g, x, y, z = grid_of('g9'); c = dyn.coords(g, a['b']); specs = dyn.pe_specs()
+    amp = dict(vort=0.125, div=0.03125, T=2.0, lnps=0.0625, tr=0.015625)           # dyadic: exactly representable in float32
+    tr = dyn.PE_TRACERS[kind] + ('tracer_0',)
+    mk = lambda: dyn.pe_state(rng, c, 2, tr, with_time=(kind != 'dry'), amp=amp)
+    A = mk(); B = mk()
+    tref = np.asarray(a['tref'], dtype=np.float64); oro = dyn.modal_field(rng, g, (), 2, amp=0.0625)
+    eq = dyn.pe_equation(kind, c, specs, tref, oro)
+    jn = lambda t: jax.tree_util.tree_map(lambda q: jnp.asarray(q), t)
+    e1 = eq.explicit_terms(jn(A)); i1 = eq.implicit_terms(jn(A))
+    eB = eq.explicit_terms(jn(B))
+    # another configuration differing in ONE field, used in between (other radius; other implementation class)
+    for other in (dyn.coords(grid_of('g9', 2.0)[0], a['b']), dyn.coords(grid_of('g9f')[0], a['b'])):
+        try:
+            o_oro = np.zeros(other.horizontal.modal_shape)
+            st_o = dyn.pe_state(rng, other, 2, tr, with_time=(kind != 'dry'), amp=amp)
+            dyn.pe_equation(kind, other, specs, tref, o_oro).explicit_terms(jn(st_o))
+        except Exception as e:
+            ctx.oracle('other configuration evaluates', False, repr(e)[:200])
+    e2 = eq.explicit_terms(jn(A)); i2 = eq.implicit_terms(jn(A))
+    ctx.count('pe_forms:%s' % kind)
+    _leaves_equal(ctx, f'{kind}: explicit_terms is pure (same object, same input, other inputs and configurations in between)', e1, e2)
+    _leaves_equal(ctx, f'{kind}: implicit_terms is pure', i1, i2)
+    # a second object built from the same data
+    eqb = dyn.pe_equation(kind, c, specs, tref.copy(), oro.copy())
+    _leaves_equal(ctx, f'{kind}: an equal equation object gives the same explicit terms', e1, eqb.explicit_terms(jn(A)))
+    # vmap over a batch of two different states
+    both = jax.tree_util.tree_map(lambda p, q: jnp.stack([jnp.asarray(p), jnp.asarray(q)]), A, B)
+    ev = jax.vmap(eq.explicit_terms)(both); iv = jax.vmap(eq.implicit_terms)(both)
+    for n in ('vorticity', 'divergence', 'temperature_variation', 'log_surface_pressure'):
+        sc = float(np.max(np.abs(np.asarray(getattr(e1, n))))) + float(np.max(np.abs(np.asarray(getattr(eB, n))))) + 1e-300
+        ctx.oracle_close(f'{kind}: vmap over two different states = per-state evaluation ({n})', np.asarray(getattr(ev, n)),
+                         np.stack([np.asarray(getattr(e1, n)), np.asarray(getattr(eB, n))]), scale=sc, tol_rel=1e-13)
+    ctx.oracle_close(f'{kind}: vmap of implicit_terms', np.asarray(iv.divergence)[0], np.asarray(i1.divergence),
+                     scale=float(np.max(np.abs(np.asarray(i1.divergence)))) + 1e-300, tol_rel=1e-13)
+    # integer-typed reference temperature (values are whole numbers), read-only numpy inputs
+    eqi = getattr(pe, dyn.PE_CLASSES[kind])(tref.astype(np.int64), jnp.asarray(oro), c, specs)
+    _leaves_equal(ctx, f'{kind}: integer-typed T_ref = float T_ref (explicit)', e1, eqi.explicit_terms(jn(A)))
+    _leaves_equal(ctx, f'{kind}: integer-typed T_ref = float T_ref (implicit)', i1, eqi.implicit_terms(jn(A)))
+    def ro(q):
+        q = np.array(q, dtype=np.float64); q.setflags(write=False); return q
+    Aro = jax.tree_util.tree_map(ro, A)
+    _leaves_equal(ctx, f'{kind}: read-only numpy inputs', e1, eq.explicit_terms(Aro))
+    # float32 copies of exactly representable coefficients: every float64 result must be reproduced to float32 accuracy at least,
+    # and exactly where the computation is carried out in float64 (checked on the unchanged tree: the transforms promote)
+    A32 = jax.tree_util.tree_map(lambda q: jnp.asarray(np.asarray(q, dtype=np.float32)) if np.ndim(q) else q, A)
+    e32 = eq.explicit_terms(A32)
+    for n in ('vorticity', 'divergence', 'temperature_variation', 'log_surface_pressure'):
+        ctx.oracle_close(f'{kind}: float32 inputs (dyadic coefficients) give the float64 explicit tendency ({n})', np.asarray(getattr(e32, n), dtype=np.float64),
+                         np.asarray(getattr(e1, n)), scale=float(np.max(np.abs(np.asarray(getattr(e1, n))))) + 1e-300, tol_rel=a.get('f32_tol', 1e-12))
+
+
+# ---------------------------------------------------------------------------
+# Structured states: at rest except ONE coefficient at the highest retained / the clipped top total wavenumber
+# ---------------------------------------------------------------------------
+def r_linear_top(ctx, a):
+    """rest + one coefficient column at total wavenumber l in {L-2 (highest retained), L-1 (clipped in the explicit part)}:
+    all non-linear products vanish, the tendency is given by closed formulas computed here in numpy
+    (eigenvalue -l(l+1)/a^2, hydrostatic weights, -H.div column formula)"""
+    m = dyn.mods(); jnp = m['jnp']
+    kind = a['kind']; b = a['b']; K = len(b) - 1
+    g, x, y, z = grid_of(a['grid'], a.get('radius')); c = dyn.coords(g, b); specs = specs_of(a['consts'])
+    L = g.total_wavenumbers; rad = float(g.radius); R = specs.R
+    tref = np.asarray(a['tref'], dtype=np.float64)
+    Kk, cen, th, al = sigma_tables(b); G = geo_weights(b, R)
+    mm, ll = g.modal_mesh; mask = np.asarray(g.mask)
+    ctx.count('linear_top:%s %s' % (kind, a['grid']))
+    tracers0 = {n: np.zeros((K,) + tuple(g.modal_shape)) for n in dyn.PE_TRACERS[kind]}
+    for l in (L - 2, L - 1):
+        cand = np.argwhere((np.asarray(ll) == l) & mask & (np.abs(np.asarray(mm)) == a['m']))
+        mi, li = (int(t) for t in cand[a['pick'] % len(cand)])
+        eig = -l * (l + 1) / rad ** 2
+        for field in ('T', 'lnps', 'div', 'oro'):
+            zero = np.zeros((K,) + tuple(g.modal_shape)); col = np.asarray(a['col'], dtype=np.float64)
+            vort = zero.copy(); div = zero.copy(); Tp = zero.copy(); lnps = np.zeros((1,) + tuple(g.modal_shape)); oro = np.zeros(tuple(g.modal_shape))
+            want = dict(vorticity=zero.copy(), divergence=zero.copy(), temperature_variation=zero.copy(), log_surface_pressure=lnps.copy())
+            if field == 'T':
+                Tp[:, mi, li] = col; want['divergence'][:, mi, li] = -eig * (G @ col)
+            elif field == 'lnps':
+                lnps[0, mi, li] = col[0]; want['divergence'][:, mi, li] = -eig * R * tref * col[0]
+            elif field == 'oro':
+                oro[mi, li] = col[0]
+                if l < L - 1: want['divergence'][:, mi, li] = -eig * specs.g * col[0]     # the explicit orographic term is clipped at L-1
+            else:
+                d = col * 0.01; div[:, mi, li] = d
+                cum = np.cumsum(d * th); sdD = np.asarray(b)[1:K] * cum[-1] - cum[:K - 1]
+                gp = (al * cum + np.concatenate([[0.0], (al * cum)[:-1]])) / th
+                want['temperature_variation'][:, mi, li] = centered_np(sdD, tref, cen) - specs.kappa * tref * gp
+                want['log_surface_pressure'][0, mi, li] = -cum[-1]
+            eq = dyn.pe_equation(kind, c, specs, tref, oro)
+            tot, ex, im = pe_total(eq, kind, vort, div, Tp, lnps, tracers0)
+            sc = max(float(np.max(np.abs(v))) for v in want.values()) + (abs(eig) * abs(float(col[0])) * 1e-6 if field != 'div' else 1e-300) + 1e-300
+            for n in (('temperature_variation', 'log_surface_pressure') if field == 'div' else tuple(want)):      # (div: KE and f make the rest non-linear)
+                ctx.oracle_close(f'{kind}: rest + one {field} coefficient at l = L{l - L:+d}: {n} tendency = closed linear formula',
+                                 tot[n], want[n], scale=sc, tol_rel=1e-10)
+    # shallow water: potential and divergence columns
+    Ks = a['sw_dens'] and len(a['sw_dens'])
+    if Ks:
+        cs = dyn.layer_coords(g, Ks); dens = np.asarray(a['sw_dens'], dtype=np.float64); ref = np.asarray(a['sw_ref'], dtype=np.float64)
+        Rm = np.minimum(dens[None, :] / dens[:, None], 1.0)
+        eqs = sw_eq(cs, dens, ref, None, 0.0, radius=rad)
+        for l in (L - 2, L - 1):
+            cand = np.argwhere((np.asarray(ll) == l) & mask & (np.abs(np.asarray(mm)) == a['m']))
+            mi, li = (int(t) for t in cand[a['pick'] % len(cand)]); eig = -l * (l + 1) / rad ** 2
+            zero = np.zeros((Ks,) + tuple(g.modal_shape)); col = np.asarray(a['col'], dtype=np.float64)[:Ks]
+            pot = zero.copy(); pot[:, mi, li] = col
+            tot = sw_total(eqs, zero, zero, pot)
+            want = zero.copy(); want[:, mi, li] = -eig * ((Rm @ col) if l < L - 1 else col)      # at L-1 only the implicit -lap(Phi_i) survives
+            ctx.oracle_close(f'shallow water: rest + one potential coefficient at l = L{l - L:+d}: divergence tendency', tot['divergence'], want,
+                             scale=float(np.max(np.abs(want))) + 1e-300, tol_rel=1e-10)
+            dv = zero.copy(); dv[:, mi, li] = col * 0.01
+            tot = sw_total(eqs, zero, dv, zero)
+            want = zero.copy(); want[:, mi, li] = -ref * col * 0.01
+            ctx.oracle_close(f'shallow water: rest + one divergence coefficient at l = L{l - L:+d} (no rotation): potential tendency', tot['potential'], want,
+                             scale=float(np.max(np.abs(want))) + 1e-300, tol_rel=1e-10)
+            ctx.oracle_close(f'shallow water: ... vorticity tendency = 0', tot['vorticity'], zero, scale=float(np.max(np.abs(want))) + 1e-300, tol_rel=1e-10)
 
 
 # ---------------------------------------------------------------------------
@@ -973,6 +1152,30 @@ def generate(ctx):
         tr = [float(rng.integers(220, 300))] * K if uni else prof(K)
         yield 'pe_pointwise', dict(kind=kind, consts=consts, radius=rad, b=bb, grid='g9', tref=tr, degree=2, vadv=vadv_, matmul=mm,
                                    polys=_pe_polys(rng, K, kind, 2, dict(amp, chi=0.03)))
+    # more options, structured data and layouts (self-review list): include_vertical_advection=False (+ sparse), identically zero
+    # humidity in a moist class, no rotation, integer-typed T_ref with a plateau, Fast implementation / padded layout / longitude
+    # offset / M < L - 1 / wide grid
+    splan = [('dry', 3, 'g9', dict(vadv='none', matmul='sparse')), ('moist', 3, 'g9', dict(q_zero=1)), ('dry', 2, 'g9', dict(omega0=1)),
+             ('dry', 3, 'g9', dict(tref_int=1)), ('time', 3, 'g9f', {})]
+    if not quick:
+        splan += [(k, K, 'g9', dict(vadv='none')) for k in ('time', 'moist', 'cloud') for K in (2, 4)]
+        splan += [(k, 3, gn, {}) for k in ('dry', 'moist') for gn in ('g9p', 'g9o', 'gm6', 'gw')]
+        splan += [('cloud', 3, 'g9p', dict(vadv='upwind', matmul='sparse')), ('moist', 2, 'g9f', dict(vadv='upwind')), ('cloud', 3, 'g9', dict(q_zero=1)),
+                  ('moist', 3, 'g9', dict(tref_int=1, matmul='sparse')), ('moist', 3, 'g9o', dict(omega0=1, vadv='none'))]
+    for r, (kind, K, gname, extra) in enumerate(splan):
+        consts, rad = _consts(rng, r)
+        if extra.get('omega0'): consts = [1.0, 0.0, 4.0, 0.5, 0.8, 3.0, 0.25]; rad = 1.0
+        tr = prof(K)
+        if extra.get('tref_int'): tr = [250.0] * (K - 1) + [270.0]                      # whole numbers, plateau, equal leading values
+        args = dict(kind=kind, consts=consts, radius=rad, b=lev(K), grid=gname, tref=tr, degree=2, polys=_pe_polys(rng, K, kind, 2, amp))
+        args.update({k: v for k, v in extra.items() if k != 'omega0'})
+        yield 'pe_pointwise', args
+    for kind in (['dry'] if quick else ['dry', 'time', 'moist', 'cloud']):
+        yield 'pe_forms', dict(kind=kind, b=lev(3), tref=[float(t) for t in rng.integers(220, 300, size=3)], seed=int(rng.integers(1 << 30)))
+    for r, (kind, gname) in enumerate([('dry', 'g9')] if quick else [('dry', 'g9'), ('moist', 'g9'), ('time', 'g9f'), ('cloud', 'g9p'), ('dry', 'gm6')]):
+        consts, rad = _consts(rng, r + 1)
+        yield 'linear_top', dict(kind=kind, consts=consts, radius=rad, grid=gname, b=lev(3), tref=prof(3), m=int(rng.integers(0, 4)), pick=int(rng.integers(0, 4)),
+                                 col=(rng.integers(1, 17, size=3) / 8.0).tolist(), sw_dens=[1.0, 1.25, 1.75], sw_ref=[1.0, 0.5, 0.75])
     for r, K in enumerate([1, 3] if quick else [1, 2, 3, 4, 2, 3]):
         dens = np.cumsum(np.concatenate([[1.0], rng.integers(1, 5, size=K - 1) / 8.0])).tolist()
         polys = dict(psi=[rand_poly(rng, 2, amp=0.1) for _ in range(K)], chi=[rand_poly(rng, 2, amp=0.02) for _ in range(K)],
@@ -988,9 +1191,10 @@ def generate(ctx):
                               oro_amp=[0.02, 0.2, 0.0][r % 3] if r else 0.02, T0=float(rng.integers(200, 320)), q0=float(rng.integers(0, 30)) / 1000,
                               c=float(rng.integers(-40, 120)) / 8, tref=prof(K) if split else None)
     yield 'pe_rest_states', dict(b=lev(3), grid='g9', height_m=0, T0=288., seed=int(rng.integers(1 << 30)), shape=[])
+    yield 'pe_rest_states', dict(b=lev(2), grid='g9', height_m=0, T0=float(rng.integers(230, 300)), p0=float(rng.integers(6, 11)) * 1e4, seed=int(rng.integers(1 << 30)), shape=[])
     yield 'pe_rest_states', dict(b=lev(3), grid='g9', height_m=float(rng.integers(2, 16)) * 100, T0=288., seed=int(rng.integers(1 << 30)), shape=rand_poly(rng, 2))
     # Oracle B: solid-body rotation in gradient-wind balance
-    plan = [('dry', 3, 'general'), ('moist', 3, 'general'), ('moist', 2, 'isothermal'), ('dry', 3, 'barotropic'), ('cloud', 3, 'general')]
+    plan = [('dry', 3, 'general'), ('moist', 3, 'general'), ('moist', 2, 'isothermal'), ('dry', 3, 'barotropic'), ('cloud', 3, 'general'), ('dry', 3, 'general')]
     if not quick: plan += [(k, K, md) for k in ('dry', 'time', 'moist', 'cloud') for K in (1, 2, 3, 5) for md in ('general', 'isothermal', 'barotropic')]
     for r, (kind, K, mode) in enumerate(plan):
         consts, rad = _consts(rng, r)
@@ -998,17 +1202,18 @@ def generate(ctx):
         U = (rng.integers(-24, 25, size=K) / 100.0).tolist() if mode == 'general' else [float(rng.integers(-24, 25)) / 100.0 or 0.07] * K
         need = -(np.asarray(U) ** 2 / 2 + radius * sp.angular_velocity * np.asarray(U))
         gam = float(np.mean(need)) / sp.g * (1.1 if mode == 'general' else 1.0)
-        yield 'pe_solid_body', dict(kind=kind, consts=consts, radius=rad, b=lev(K), grid='g9', U=U,
+        yield 'pe_solid_body', dict(kind=kind, consts=consts, radius=rad, b=lev(K), grid='gt' if r == 5 else 'g9', U=U,
                                     Tbar=prof(K) if mode != 'isothermal' else [float(rng.integers(220, 300))] * K, tref=prof(K),
                                     mode='isothermal' if mode == 'isothermal' else 'general', beta=float(rng.integers(-8, 9)) / 64,
                                     gamma=gam, c=float(rng.integers(-16, 90)) / 8, q0=float(rng.integers(0, 30)) / 1000)
     # Oracle B: shallow-water balanced jets
     jet = lambda d: (rng.integers(-16, 17, size=d + 1) / 64.0).tolist()
-    plan = [('one_layer', 1, 0), ('one_layer', 1, 3), ('multi_layer', 2, 2), ('multi_layer', 3, 3)]
-    if not quick: plan += [('one_layer', 1, d) for d in (1, 2, 4)] + [('multi_layer', K, d) for K in (1, 2, 3, 4) for d in (0, 2, 4)]
+    plan = [('one_layer', 1, 0), ('one_layer', 1, 3), ('multi_layer', 2, 2), ('multi_layer', 3, 3), ('multi_layer', 1, 2)]
+    if not quick: plan += [('one_layer', 1, d) for d in (1, 2, 4)] + [('multi_layer', K, d) for K in (1, 2, 3, 4) for d in (0, 2, 4)] + [('one_layer', 1, -2), ('multi_layer', 2, -2)]
     for fnm, K, d in plan:
+        tall = d < 0; d = abs(d)
         dens = np.cumsum(np.concatenate([[1.0], rng.integers(1, 5, size=K - 1) / 8.0])).tolist()
-        yield 'sw_states', dict(fn=fnm, grid='g9' if d < 3 else 'g12', dens=dens, ref=(rng.integers(2, 10, size=K) / 8.0).tolist(), w=[jet(d) for _ in range(K)])
+        yield 'sw_states', dict(fn=fnm, grid='gt' if tall else 'g9' if d < 3 else 'g12', dens=dens, ref=(rng.integers(2, 10, size=K) / 8.0).tolist(), w=[jet(d) for _ in range(K)])
     for r, (K, d) in enumerate([(1, 2), (3, 3)] if quick else [(1, 0), (1, 2), (2, 3), (3, 3), (4, 2), (3, 4)]):
         dens = np.cumsum(np.concatenate([[1.0], rng.integers(1, 5, size=K - 1) / 8.0])).tolist()
         yield 'sw_balanced', dict(grid='g9' if d < 3 else 'g12', radius=[1.25, None, 2.0][r % 3], omega=[0.9, 0.5, 0.25][r % 3], dens=dens,
@@ -1031,4 +1236,5 @@ def generate(ctx):
 
 RUNNERS = {'pe_pointwise': r_pe_pointwise, 'sw_pointwise': r_sw_pointwise, 'pe_rest': r_pe_rest, 'pe_rest_states': r_pe_rest_states,
            'pe_solid_body': r_pe_solid_body, 'sw_states': r_sw_states, 'sw_balanced': r_sw_balanced, 'sw_barotropic': r_sw_barotropic,
-           'jw': r_jw, 'column': r_column, 'geopotential': r_geopotential}
+           'jw': r_jw, 'column': r_column, 'geopotential': r_geopotential,
+           'pe_forms': r_pe_forms, 'linear_top': r_linear_top}
